@@ -34,6 +34,13 @@ class Rec(asyncio.Protocol):
     def _shutdown(self) -> None:
         # socket.shutdown() on the transport's socket, as library code might do before closing: the errno the OS answers with is recorded
         sock = self.transport.get_extra_info("socket")
+        try:
+            sock.getpeername()
+            self.log.append(("getpeername", "ok"))
+        except OSError as e:
+            import errno as _errno
+
+            self.log.append(("getpeername", _errno.errorcode.get(e.errno, e.errno)))
         for _ in range(2):
             try:
                 sock.shutdown(socket.SHUT_RDWR)
